@@ -26,6 +26,10 @@ type factSet struct {
 	// single-use unexported helpers: full name -> the function that calls it; bare name -> declaration
 	owner      map[string]string
 	helperDecl map[string]*ast.FuncDecl
+	// unexported helpers added since the freeze that are called from SEVERAL places: inlined in the
+	// call-order facts only (what a function calls, in order, is the same with the helper's body
+	// written out); the inventories keep them under their own name
+	multiHelper map[string]*ast.FuncDecl
 }
 
 func repoDir() string {
@@ -252,6 +256,7 @@ func calleeName(c *ast.CallExpr) string {
 func (fs *factSet) findHelpers() {
 	fs.owner = map[string]string{}
 	fs.helperDecl = map[string]*ast.FuncDecl{}
+	fs.multiHelper = map[string]*ast.FuncDecl{}
 	type site struct {
 		caller string
 		plain  bool
@@ -286,19 +291,51 @@ func (fs *factSet) findHelpers() {
 		byBare[fd.Name.Name] = append(byBare[fd.Name.Name], name)
 	}
 	known := knownFuncs()
-	for bare, names := range byBare {
-		if len(names) != 1 || bare == "" || !(bare[0] >= 'a' && bare[0] <= 'z') {
-			continue
-		}
-		if known == nil || known[names[0]] {
-			// a function that existed when the expectations were frozen keeps its own identity:
-			// only helpers extracted SINCE then are folded into their caller
-			continue
-		}
-		ss := sites[bare]
-		if len(ss) == 1 && ss[0].plain && ss[0].caller != names[0] {
-			fs.owner[names[0]] = ss[0].caller
-			fs.helperDecl[bare] = fs.funcs[names[0]]
+	// two passes: single-use helpers first, then helpers all of whose call sites lie in ONE
+	// function once single-use helpers are counted as part of their callers
+	for pass := 0; pass < 2; pass++ {
+		for bare, names := range byBare {
+			if len(names) != 1 || bare == "" || !(bare[0] >= 'a' && bare[0] <= 'z') {
+				continue
+			}
+			if known == nil || known[names[0]] {
+				// a function that existed when the expectations were frozen keeps its own identity:
+				// only helpers extracted SINCE then are folded into their caller
+				continue
+			}
+			if _, done := fs.owner[names[0]]; done {
+				continue
+			}
+			ss := sites[bare]
+			if pass == 0 {
+				if len(ss) == 1 && ss[0].plain && ss[0].caller != names[0] {
+					fs.owner[names[0]] = ss[0].caller
+					fs.helperDecl[bare] = fs.funcs[names[0]]
+				}
+				continue
+			}
+			if len(ss) < 2 {
+				continue
+			}
+			allPlain, sameCaller := true, true
+			first := fs.ownerOf(ss[0].caller)
+			for _, st := range ss {
+				if !st.plain || st.caller == names[0] {
+					allPlain = false
+				}
+				if fs.ownerOf(st.caller) != first {
+					sameCaller = false
+				}
+			}
+			if !allPlain {
+				continue
+			}
+			if sameCaller {
+				// called several times, but (directly or through single-use helpers) by ONE function:
+				// its channel operations, goroutines and context checks are that function's
+				fs.owner[names[0]] = first
+			}
+			fs.multiHelper[bare] = fs.funcs[names[0]]
 		}
 	}
 }
@@ -474,6 +511,7 @@ func (fs *factSet) callOrder(key, fn string) {
 		fs.add(key, "missing function "+fn)
 		return
 	}
+	depth := 0
 	var walk func(n ast.Node, cond string)
 	walk = func(n ast.Node, cond string) {
 		ast.Inspect(n, func(x ast.Node) bool {
@@ -503,6 +541,15 @@ func (fs *factSet) callOrder(key, fn string) {
 						walk(a, cond)
 					}
 					walk(hd.Body, cond)
+					return false
+				}
+				if hd, ok := fs.multiHelper[calleeName(v)]; ok && !strings.Contains(cond, "{lit}") && depth < 4 {
+					for _, a := range v.Args {
+						walk(a, cond)
+					}
+					depth++
+					walk(hd.Body, cond)
+					depth--
 					return false
 				}
 				plain := false
